@@ -274,6 +274,9 @@ def run(chk, tier, seed):
                 owners.add('C03')
             if p == 'C08':
                 owners = {'C08'}
+            # C08: 'the resources it held are freed exactly once' for the named tasks
+            if err in ('C07.ReleasedTwice', 'C07.NeverReleased', 'C07.LeftBehind') and tr.get('named'):
+                owners.add('C08')
             # a task left behind / handed on with a wrong outcome never reaches a truthful final state
             if err in ('C07.LeftBehind', 'C07.OutcomeWrong', 'C07.OutcomeMissing', 'C07.ThreadDiedOrDeadlock'):
                 owners.add('C05')
